@@ -515,6 +515,11 @@ func (b *Buffer) cleanup() {
 			go func() {
 				defer timer.Stop() // just in case, ensure the timer gets stopped
 				defer func() {
+					// lock the buffer first (same order as the cleanup goroutine), otherwise the broadcast below may be
+					// missed, if the cleanup goroutine has just requested it, but isn't waiting on the cond yet
+					b.mutex.Lock()
+					defer b.mutex.Unlock()
+
 					// lock on the mutex, so that the timer removal and broadcast checking / performing is synced
 					mutex.Lock()
 					defer mutex.Unlock()
